@@ -3,6 +3,7 @@ package main
 import (
 	"fmt"
 	"strings"
+	"sync"
 	"time"
 
 	v1 "k8s.io/api/core/v1"
@@ -121,13 +122,110 @@ func init() {
 				}
 			}
 		}
+		// one process from the failure to the end: the search above hands every state to whichever worker is free,
+		// so what a controller keeps in memory between reconciles is not part of what it explores. Here one controller
+		// instance takes the failure and then runs on, reconcile after reconcile, to quiescence (canonical schedule:
+		// reconcile, then every enabled kubelet/cache step), and must end where the failure-free run of the same
+		// schedule ends; every worker's controller lives through many such runs, as a long-running process would.
+		{
+			jseeds := seeds
+			if !thorough && len(jseeds) > 400 {
+				jseeds = jseeds[:400]
+			}
+			run := func(w *world.World, st *world.State, plan world.FaultPlan) (*world.State, []*world.Call, string) {
+				w.Lag = 0
+				w.Load(st.Clone())
+				var first []*world.Call
+				for i := 0; i < 60; i++ {
+					var p world.FaultPlan
+					if i == 0 {
+						p = plan
+					}
+					rec := w.Reconcile(world.NS+"/web", p)
+					if i == 0 {
+						first = rec.Calls
+					}
+					if rec.Panic != nil {
+						return w.S.Clone(), first, fmt.Sprintf("reconcile %d panicked: %v", i, rec.Panic)
+					}
+					progressed := len(rec.Writes()) > 0 || rec.Err != nil
+					for _, l := range world.EnvProgress(w.S) {
+						world.Apply(w.S, l, 0)
+						progressed = true
+					}
+					if !progressed {
+						return w.S.Clone(), first, ""
+					}
+					if rec.Err != nil && i > 45 {
+						return w.S.Clone(), first, fmt.Sprintf("still failing after %d reconciles: %v", i, rec.Err)
+					}
+				}
+				return w.S.Clone(), first, "still acting after 60 rounds"
+			}
+			var jmu sync.Mutex
+			var journeys int64
+			jch := make(chan explore.Seed, 64)
+			var jwg sync.WaitGroup
+			jdeadline := explore.Deadline(60*time.Second, 10*time.Minute)
+			for i := 0; i < explore.Workers(); i++ {
+				jwg.Add(1)
+				go func() {
+					defer jwg.Done()
+					w := world.New()
+					for sd := range jch {
+						base, calls, why := run(w, sd.State, nil)
+						if why != "" || goalC02(base) != "" && excuseC02(base) == "" {
+							continue // not a converging seed on its own: judged by the search above
+						}
+						n := int64(0)
+						for _, c := range calls {
+							for _, kind := range []string{world.FErr500, world.FTimeout, world.FConflictFresh} {
+								if kind == world.FTimeout && !c.IsWrite() {
+									continue
+								}
+								if kind == world.FConflictFresh && !(c.Verb == "update" || c.Verb == "patch") {
+									continue
+								}
+								n++
+								end, _, why := run(w, sd.State, world.FaultPlan{c.ID: kind})
+								label := fmt.Sprintf("%s; one controller instance: reconcile with %s=%s, then reconcile/kubelet rounds to quiescence", sd.Label, c.ID, kind)
+								switch {
+								case why != "":
+									rep.Violation("C09", "no-recovery-in-one-process", label+": "+why, func() interface{} {
+										return map[string]interface{}{"kind": "c09-journey", "seed": sd.Label, "fault": c.ID + "=" + kind}
+									})
+								case end.Key() != base.Key():
+									rep.Violation("C09", "recovery-in-one-process-ends-elsewhere", label+": the run ends in a state other than the failure-free run of the same schedule: "+goalC02(end), func() interface{} {
+										return map[string]interface{}{"kind": "c09-journey", "seed": sd.Label, "fault": c.ID + "=" + kind, "end": end.Describe(), "failure_free_end": base.Describe()}
+									})
+								}
+							}
+						}
+						jmu.Lock()
+						journeys += n
+						jmu.Unlock()
+					}
+				}()
+			}
+			for i, sd := range jseeds {
+				if time.Now().After(jdeadline) {
+					rep.Exhaustive, rep.Cap = false, fmt.Sprintf("single-process journeys: deadline after %d of %d seeds", i, len(jseeds))
+					break
+				}
+				jch <- sd
+			}
+			close(jch)
+			jwg.Wait()
+			rep.AddStates(journeys, journeys)
+			rep.Extra["single_process_journeys"] = journeys
+		}
 		rep.Extra["seeds"] = len(seeds)
 		rep.Extra["reconciles"] = g.Reconciles
 		rep.Extra["fault_edges_by_kind"] = nFault
 		rep.Extra["recovery_edges_checked"] = edges
 		rep.Extra["fault_depth"] = D
 		rep.Extra["bottom_sccs"] = len(g.Bottoms)
-		rep.Rule = fmt.Sprintf("fault/crash-point enumeration on the real reconciler: %d seed states (3-ordinal spec grid x populations, plus seeds with claims to create, orphan pods and revisions to adopt, a pod to release); from every state of their progress closure, every API call of its reconcile (reads and writes) x every applicable fault kind %v is injected (depth %d: a second fault anywhere in the recovery), then the recovery closure is explored. Oracle: (1) an InternalError, a lost response or a conflict (with caches refreshed for the retry) is reported (non-nil error) or absorbed with the same outcome; (2) the safety monitors of C03-C07, C10, C12, C13 hold on the partial reconcile and on every reconcile of the recovery (reports are attributed to C09 only after a fault); (3) every final state reachable after the fault is a quiescent goal state and is reachable without the fault (the latter is not demanded for `gone`, where someone else deleted an object and the world legitimately differs). Non-trivial/distinct = states.", len(seeds), kinds, D)
+		rep.Rule = fmt.Sprintf("fault/crash-point enumeration on the real reconciler: %d seed states (3-ordinal spec grid x populations, plus seeds with claims to create, orphan pods and revisions to adopt, a pod to release); from every state of their progress closure, every API call of its reconcile (reads and writes) x every applicable fault kind %v is injected (depth %d: a second fault anywhere in the recovery), then the recovery closure is explored. Oracle: (1) an InternalError, a lost response or a conflict (with caches refreshed for the retry) is reported (non-nil error) or absorbed with the same outcome; (2) the safety monitors of C03-C07, C10, C12, C13 hold on the partial reconcile and on every reconcile of the recovery (reports are attributed to C09 only after a fault); (3) every final state reachable after the fault is a quiescent goal state and is reachable without the fault (the latter is not demanded for `gone`, where someone else deleted an object and the world legitimately differs). (4) single-process journeys: from every seed, every call of its first reconcile x {InternalError, lost response, refreshed conflict} on ONE controller instance (a crash ends the process, so it is left to the search) that then runs on to quiescence under a canonical schedule, ending where the failure-free run ends (what a controller keeps in memory between reconciles is exercised as in a long-running process). Non-trivial/distinct = states.", len(seeds), kinds, D)
 		rep.Validated = g.Reconciles
 		return rep.Finish()
 	})
